@@ -1,4 +1,5 @@
 import MdsVerif.Model.Slice
+import MdsVerif.Proofs.SliceDefs
 /-!
 # The two-cursor loop of `slice.Partition`
 
@@ -117,7 +118,7 @@ theorem partLoop_spec (keep : α → Bool) : ∀ (fuel : Nat) (K W R : List α),
     rw [eassoc] at hs
     have hPl : (K ++ x :: W').length = K.length + (x :: W').length := by simp
     rw [hPl] at hs
-    simp only [partLoop, if_pos hi, hfu, hs]
+    simp only [partLoop_zero, partLoop_succ, if_pos hi, hfu, hs]
     rcases hR' with rfl | ⟨y, R'', rfl, hy⟩
     · -- the right cursor reached the end
       simp only [List.append_nil] at hR; subst hR
@@ -169,14 +170,14 @@ theorem partitionW_spec (keep : α → Bool) (vs : List α) :
   obtain ⟨K, R', hR, hK, hR', hs⟩ := scanKept_split keep vs [] vs.length (Nat.le_refl _)
   simp only [List.nil_append, List.length_nil, Nat.zero_add] at hs
   have hKf : K.filter keep = K := List.filter_eq_self.mpr hK
-  unfold partitionW
+  simp only [partitionW_def]
   simp only [hs]
   rcases hR' with rfl | ⟨x, R, rfl, hx⟩
   · -- everything is kept
     simp only [List.append_nil] at hR; subst hR
     refine ⟨vs, ?_, by rw [hKf]; simp, List.Perm.refl _⟩
     rw [hKf]
-    simp [partLoop]
+    simp [partLoop_zero, partLoop_succ]
   · subst hR
     obtain ⟨vs', h1, h2, h3⟩ := partLoop_spec keep ((K ++ x :: R).length + 1) K [x] R (by simp)
       (by intro w hw; simp only [List.mem_singleton] at hw; subst hw; exact hx) (by simp; omega)
